@@ -91,6 +91,87 @@ def canon_cmp(op, l, r):
     return ('cmp', op, l, r)
 
 
+def _has(term, heads):
+    if isinstance(term, tuple):
+        if term and term[0] in heads:
+            return True
+        return any(_has(x, heads) for x in term)
+    return False
+
+
+def _subst_p(term, args):
+    if isinstance(term, tuple):
+        if term and term[0] == 'p' and len(term) == 2 and isinstance(term[1], int):
+            return args[term[1]] if term[1] < len(args) else term
+        return tuple(_subst_p(x, args) for x in term)
+    return term
+
+
+class Inlining:
+    """Inter-procedural normal forms: a call of a module-level helper is replaced by the helper's own normal form with the
+    arguments substituted, when that form is loop-free and effect-free (so no loop variable can be captured and no effect is
+    duplicated).  `which(name)` selects the helpers: e.g. only functions that are private to one side, or every function."""
+
+    def __init__(self, funcs, shapes, known, helper_rules, global_names, which):
+        self.funcs, self.shapes, self.known = funcs, shapes, known
+        self.helper_rules, self.global_names, self.which = helper_rules, global_names, which
+        self.cache = {}
+        self.stack = []
+        self.used = set()
+
+    def nf(self, name, argshapes=()):
+        key = (name, argshapes)
+        if key in self.cache:
+            return self.cache[key]
+        if name in self.stack or name not in self.funcs:
+            return None
+        self.stack.append(name)
+        try:
+            nz = Normalizer(self.funcs[name], self.shapes, self.known, None, self.helper_rules, self.global_names)
+            nz.inliner = self
+            # a helper without a documented shape contract takes the shapes of the arguments it is called with
+            for p_, sh in zip(nz.params, argshapes):
+                if sh is not None and p_ not in nz.pshape:
+                    nz.pshape[p_] = sh
+            try:
+                t = nz.run()
+            except Unsupported:
+                t = None
+            ok = t is not None and t[1] == ('eff0',) and not _has(t[2], ('loop', 'rawloop', 'lout', 'lv', 'iv')) and not nz.failures
+            self.cache[key] = (t[2], len(nz.params), dict(nz.defaults), nz) if ok else None
+        finally:
+            self.stack.pop()
+        return self.cache[key]
+
+    def instantiate(self, name, args, caller):
+        if name == caller.name or not self.which(name):
+            return None
+        args = tuple(args)
+        shapes = []
+        for a in args:
+            try:
+                sh = caller.shape(a)
+            except Exception:  # noqa
+                sh = None
+            shapes.append(sh if (sh is None or all(isinstance(x, int) for x in sh)) else None)
+        r = self.nf(name, tuple(shapes))
+        if r is None:
+            return None
+        val, nparams, defaults, nz = r
+        if len(args) > nparams:
+            return None
+        if len(args) < nparams:
+            # remaining parameters must have defaults
+            extra = []
+            for p_ in nz.params[len(args):]:
+                if p_ not in defaults:
+                    return None
+                extra.append(caller.expr(defaults[p_], {}))
+            args = args + tuple(extra)
+        self.used.add(name)
+        return caller.refold(_subst_p(val, args))
+
+
 class Normalizer:
     def __init__(self, fnode, shapes, module_funcs, ref_nparams=None, helper_rules=True, global_names=()):
         self.fn = fnode
@@ -112,6 +193,27 @@ class Normalizer:
         self.loop_uid = 0
         self.pshape = dict(self.shapes.params.get(self.name, {}))
         self.loop_shapes = {}
+        self.inliner = None      # optional Inlining(...) : module-level helpers are replaced by their (loop-free, effect-free) normal form
+
+    def refold(self, t):
+        """Re-apply the local simplifications that substitution of arguments can enable (constant index into a block / tuple)."""
+        if not isinstance(t, tuple):
+            return t
+        t = tuple(self.refold(x) for x in t)
+        if t and t[0] == 'idx' and len(t) == 3 and isinstance(t[1], tuple) and t[1]:
+            try:
+                return self.index(t[1], t[2])
+            except Exception:  # noqa
+                return t
+        if t and t[0] == 'unpack' and len(t) == 3 and isinstance(t[1], tuple) and t[1] and t[1][0] == 'tuple' and isinstance(t[2], int) and t[2] < len(t[1][1]):
+            return t[1][1][t[2]]
+        return t
+
+    @staticmethod
+    def _tuple_item(b, items):
+        if b[0] == 'tuple' and len(items) == 1 and is_num(items[0]) and float(items[0][1]).is_integer() and 0 <= int(items[0][1]) < len(b[1]):
+            return b[1][int(items[0][1])]
+        return None
 
     # ------------------------------------------------------------------ entry
     def run(self):
@@ -178,6 +280,8 @@ class Normalizer:
                     env[k] = v1 if v1 == v2 else self.ite(c, v1, v2)
                 continue
             if isinstance(st, (ast.For, ast.While)):
+                if self._unroll(st, env):
+                    continue
                 self.loop(st, env)
                 continue
             if isinstance(st, ast.Try):
@@ -264,6 +368,37 @@ class Normalizer:
             rr = self.block(st.finalbody, env)
             if rr[0] == 'ret':
                 raise Unsupported('return inside finally')
+
+    UNROLL_MAX = 8
+
+    def _unroll(self, st, env):
+        """N17: a `for` over range() with constant bounds and at most UNROLL_MAX iterations is its body repeated with the counter
+        bound to each value (element-wise fills of a fixed-size block then normalise like the slice stores they spell out)."""
+        if not (isinstance(st, ast.For) and isinstance(st.target, ast.Name) and not st.orelse and isinstance(st.iter, ast.Call)
+                and isinstance(st.iter.func, ast.Name) and st.iter.func.id == 'range' and 1 <= len(st.iter.args) <= 3 and not st.iter.keywords):
+            return False
+        if any(isinstance(n, (ast.Break, ast.Continue, ast.Return)) for n in ast.walk(st)):
+            return False
+        vals = [self.expr(a, env) for a in st.iter.args]
+        if not all(is_num(v) and float(v[1]).is_integer() for v in vals):
+            return False
+        ints = [int(v[1]) for v in vals]
+        rng = range(*ints)
+        if len(rng) > self.UNROLL_MAX:
+            return False
+        snapshot = dict(env)
+        try:
+            for k in rng:
+                env[st.target.id] = num(k)
+                r = self.block(st.body, env)
+                if r[0] != 'env':
+                    raise Unsupported('return inside loop')
+                env = r[1]
+        except Unsupported:
+            env.clear()
+            env.update(snapshot)
+            return False
+        return True
 
     def loop(self, st, env):
         self.depth += 1
@@ -598,6 +733,9 @@ class Normalizer:
         return [('idx', base, items[:k] + (num(v),) + items[k + 1:]) for v in range(lo, hi)]
 
     def index(self, b, items):
+        ti = self._tuple_item(b, items)
+        if ti is not None:
+            return ti
         # N14: chained indexing X[i][j] == X[i, j] for scalar i
         if b[0] == 'idx' and all(not (isinstance(it, tuple) and it[0] == 'sl') for it in b[2]):
             bs = self.shape(b[1])
@@ -766,6 +904,10 @@ class Normalizer:
         return False
 
     def fn_call(self, name, args, kwargs):
+        if self.inliner is not None and not kwargs:
+            t = self.inliner.instantiate(name, args, self)
+            if t is not None:
+                return t
         if self.helper_rules:
             if name in ('Norm',) and len(args) == 1:
                 return ('call', 'numpy.linalg.norm', args, ())         # N1
